@@ -162,6 +162,18 @@ with the collector, which is started after the launch loop and from then on is a
 receive.  `wg.Add(1)` is executed by the parent BEFORE the `go` statement, `wg.Done()` is the
 child's last action. -/
 
+/-- What the goroutine system below assumes about clone.go, as far as syntax can show it (compared with the facts
+`Gen.clone…` that harness/cmd/extract-clone regenerates from the source on every run; Props/C09 `clone_structure_pinned`).
+Coarse on purpose — a vocabulary, not a layout: within the functions reachable from `CircularLigate`
+* the only synchronisation mechanisms are `go`, a `chan string` for the constructs, a `chan []Part` for the result,
+  `close`, and a `sync.WaitGroup` (no mutex, no semaphore channel, no `select`, no atomics, no `sync.Map` …);
+* of the watched method names only `Add`, `Done`, `Wait` are called;
+* exactly one function receives from a `chan string` (one collector), and something sends on one.
+How many goroutines there are, whether the construct channel is buffered, whether the collector ranges over the channel —
+the Step system fixes one such layout (the one transcribed from clone.go 264-343), the pin does not. -/
+def expectedCloneFacts : List String × List String × Nat × Bool :=
+  (["chan:[]Part", "chan:string", "close", "go", "sync.WaitGroup"], ["Add", "Done", "Wait"], 1, true)
+
 structure Sys where
   seeds : List Work            -- main's launch loop: goroutines still to be started
   procs : List Work            -- live `recurseLigate` goroutines (residual programs)
